@@ -164,11 +164,18 @@ def report(ctx, traces, viol, drift):
             if key in seen:
                 continue
             seen.add(key)
+            # did the caller overwrite, in place, the constructor inputs of a grid of this history before this
+            # step, and through which kind of constructor were they handed over (decided from the source's name:
+            # t_* arrays / lists to from_topology, v_* face-vertex arrays, d_* the caller's xarray dataset)
+            edited = sorted({e["h"] for e in t["events"][:line] if e["act"] == "EditInput"})
+            routes = sorted({{"t": "topology", "v": "vertices", "d": "dataset"}.get(str(src)[:1] if str(src)[1:2] == "_" else "", "other") for src in t["sources"].values()})
             sig = {
                 "clause": clause,
                 "act": ev["act"],
                 "after": prev[-1] if prev else "",
                 "same_grid": bool(prev) and t["events"][line - 2]["h"] == ev["h"],
+                "input_edited": bool(edited),
+                "input_route": routes[0] if len(routes) == 1 else "mixed",
             }
             ctx.violation(
                 key,
@@ -368,7 +375,7 @@ def counterexample_history(ctx, mech, focus, inv, handles=(1, 2), base=(1,), max
     a directed test for the real code instead of hoping a sampled history hits it."""
     import re
 
-    c = gen_cfg(mech, focus, max_len, ["Access", "ToXarray", "ToGdf", "ToPoly", "ToLine", "Mutate", "EditExport", "EditReturned", "Copy", "Chunk", "DataToGdf"], handles, base, (inv,), max_mut)
+    c = gen_cfg(mech, focus, max_len, ["Access", "ToXarray", "ToGdf", "ToPoly", "ToLine", "Mutate", "EditExport", "EditReturned", "EditInput", "Copy", "Chunk", "DataToGdf"], handles, base, (inv,), max_mut)
     r = ctx.tlc("GridLazyGen", c, what="GridLazy(%s): shortest history violating %s" % (mech, inv), workers=1, count=False, timeout=900)
     if r.violated is None:
         if not r.ok:
